@@ -107,7 +107,8 @@ def mk_geometry(case, element):
         if len(captured) == 1:
             atom, pos = captured[0]
             dx, dy, dz = pos.x - c.x, pos.y - c.y, pos.z - c.z
-            L = BOND_LENGTH[element]
+            from fractions import Fraction
+            L = Fraction(repr(BOND_LENGTH[element]))      # exact decimal, not the double product
             ctx.claim('bond-length', eq(dx * dx + dy * dy + dz * dz, L * L))
             if case == 'trigonal-2':
                 # -a1-a2 makes an obtuse angle with both neighbours (for any geometry)
